@@ -1359,6 +1359,14 @@ for _pid in ("C01", "C02", "C08"):
         "the Go structs (every AST the real parser returns has exactly one of Ident / BindIdent / BindParameters set per element — "
         "C06's tie); a nil dereference is not represented (each is guarded by a nil test in the source, which the proofs use); "
         "strconv.Atoi as Model/Classify reads it (atoiGo)"]
+for _pid in ("C02", "C08"):
+    PROPS[_pid]["code_modules"] = PROPS[_pid].get("code_modules", []) + ["Flamego.Props.C02Code"]
+    PROPS[_pid]["level_text"] = PROPS[_pid]["level_text"] + (
+        " And for regex segments: constructMatchStyleRegex (leaf.go: two nested range loops with early returns, a bytes.Buffer, a map "
+        "used as a set) is translated on every run too, and Props/C02Code proves regex_refines — for every engine and every segment of "
+        "the parser's AST it returns what the model's classifyRegex returns: the same anchored pattern, the same bind list aligned with "
+        "the capture groups (the groups of a user's own expression unnamed), and an error exactly when and of the kind the model says "
+        "(empty element, non-regex literal, expression that does not compile, bind used twice, pattern that does not compile).")
 _ALL = ['C01', 'C02', 'C03', 'C04', 'C05', 'C06', 'C07', 'C08', 'C09', 'C10', 'C11', 'C12', 'C13', 'C14', 'C15', 'C16', 'C17', 'C18']
 NOT_APPLICABLE = [
     {"property_id": p, "reason": "check not built yet in this revision (work in progress; see DESIGN.md §11 for the plan)"}
